@@ -76,14 +76,16 @@ def to_api_kwargs(kw):
              drop_trailing_silence=kw["drop_trailing_silence"], strict_min_dur=kw["strict_min_dur"],
              analysis_window=kw["analysis_window"] / U, energy_threshold=kw["energy_threshold"], use_channel=uc,
              sampling_rate=kw["sampling_rate"], sample_width=kw["sample_width"], channels=kw["channels"], large_file=kw["large_file"])
+    if kw.get("audio_format", "none") != "none":
+        d["audio_format"] = kw["audio_format"]
     if kw["max_read"] >= 0:
         d["max_read"] = kw["max_read"] / U
     return d
 
 
-OPT2FLAG = {"n": "-n", "m": "-m", "s": "-s", "a": "-a", "e": "-e", "d": "-d", "R": "-R", "u": "-u", "M": "-M", "r": "-r", "c": "-c", "w": "-w",
+OPT2FLAG = {"f": "-f", "n": "-n", "m": "-m", "s": "-s", "a": "-a", "e": "-e", "d": "-d", "R": "-R", "u": "-u", "M": "-M", "r": "-r", "c": "-c", "w": "-w",
             "L": "-L", "q": "-q", "O": "-O", "o": "-o", "j": "-j"}
-LONGFLAG = {"n": "--min-duration", "m": "--max-duration", "s": "--max-silence", "a": "--analysis-window", "e": "--energy-threshold",
+LONGFLAG = {"f": "--input-format", "n": "--min-duration", "m": "--max-duration", "s": "--max-silence", "a": "--analysis-window", "e": "--energy-threshold",
             "d": "--drop-trailing-silence", "R": "--strict-min-duration", "u": "--use-channel", "M": "--max-read", "r": "--rate",
             "c": "--channels", "w": "--width", "L": "--large-file", "q": "--quiet", "O": "--save-stream", "o": "--save-detections-as",
             "j": "--join-detections"}
@@ -100,6 +102,9 @@ def build_job(idx, vec, tmproot, rng):
     kind = ["wav", "raw", "stdin"][idx % 3]
     if kw["large_file"] and kind == "stdin":
         kind = "raw"
+    fmt_opt = kw.get("audio_format", "none")
+    if fmt_opt != "none":
+        kind = fmt_opt          # -f names the format of a file whose extension says nothing
     sr, sw, ch = kw["sampling_rate"], kw["sample_width"], kw["channels"]
     if kind == "wav":
         # a wav file carries its own parameters: -r/-c/-w (and their defaults) must not matter
@@ -108,14 +113,14 @@ def build_job(idx, vec, tmproot, rng):
         fsr, fsw, fch = sr, sw, ch
     data = synth(fsr, fsw, fch)
     if kind == "wav":
-        path = os.path.join(d, "in.wav")
+        path = os.path.join(d, "in.wav" if fmt_opt == "none" else "in.bin")
         with wave.open(path, "wb") as w:
             w.setframerate(fsr)
             w.setsampwidth(fsw)
             w.setnchannels(fch)
             w.writeframes(data)
     else:
-        path = os.path.join(d, "in.raw")
+        path = os.path.join(d, "in.raw" if fmt_opt == "none" else "in.bin")
         with open(path, "wb") as f:
             f.write(data)
     argv = []
